@@ -37,6 +37,12 @@ def main(tier, seed):
     # finally blocks, inside a fiber, inside a module) must leave nothing behind that makes a later try statement misbehave
     import random
     profcheck.run_scenarios(rep, "acrossruns", scenarios.snippet_scenarios(random.Random(seed + 8), 300 if q else 3000), bins, PROP)
+    # "or by a failing built-in operation (as an instance of the matching error class)": every kind of built-in failure the VM raises (operand
+    # types, undefined names and members, indices, calls of non-functions, wrong arities, the 65th call frame, failing host functions,
+    # failures inside finally blocks ...) raised at the end of call chains through functions, methods, constructors, lambdas and fibers and
+    # caught at the failing level or at the outermost one, with finally blocks in between
+    profcheck.run_scenarios(rep, "caughtfailures", [p for p in scenarios.error_scenarios(random.Random(seed + 9), 500 if q else 6000)
+                                                    if not p[0].endswith(":None")], bins, PROP)
     # handlers in the presence of the other control transfers: a fiber switch made from inside try / catch / finally blocks (with a
     # completion pending), and exceptions that cross a module boundary on their way to the handler (whose globals must be its own)
     profcheck.run_scenarios(rep, "switchcontexts", scenarios.fiber_switch_context_scenarios(), bins, PROP)
